@@ -11,7 +11,8 @@ E == "e0"
 
 RecSpace ==
     { r \in [it : RecTypes, msg : HsMsgs, sealed : BOOLEAN, auth : BOOLEAN, gen : BOOLEAN, free : BOOLEAN, frag : BOOLEAN, len : {1},
-             alvl : {1, 2}, adesc : {0, 10}] :
+             alvl : {1, 2}, adesc : {0, 10}, otype : {22, 23}] :
+        /\ (r.sealed => r.otype = 23) /\ (r.gen /\ ~r.sealed /\ r.it = "hs" => r.otype = 22)
         /\ (r.auth => r.sealed)
         /\ (r.it # "hs" => r.msg = "FINISHED")            \* msg irrelevant unless handshake
         /\ (r.it # "alert" => r.alvl = 1 /\ r.adesc = 10) \* alert fields irrelevant otherwise
